@@ -4,16 +4,16 @@ import json, subprocess
 hooks_commit = "76a60ed"
 claimed = {
  # id: (engine, level, design_ref, technique, text, note)
- "C01": ("E1 simbroker/route + route-live", "exploration", "5 C01", "deterministic whole-broker simulation (synctest fake clock, simulated connections/gossip/RPC, seeded scenarios), reference MQTT matcher as oracle; second variant judges publishes issued while subscription gossip is in flight against the LWW fold of what the publishing node has been handed; ddmin replay files",
+ "C01": ("E1 simbroker/route + route-live", "exploration", "5 C01", "deterministic whole-broker simulation (synctest fake clock, simulated connections/gossip/RPC, seeded scenarios), reference MQTT matcher as oracle; second variant judges publishes issued while subscription gossip is in flight against the LWW fold of what the publishing node has been handed; client links dying under a broker write while the client is still a registered recipient; ddmin replay files",
          "Seeded search over subscribe/unsubscribe/re-subscribe histories and publish bursts on 1-3 simulated nodes with gossip loss/duplication/delay; every (publish, session) pair is judged against an independent MQTT 3.1.1 matcher, so wrong matches, missed '#'/'+' cases, order dependence and pruning errors surface as copy-count mismatches. Sampling with a coverage count, not exhaustive enumeration.",
          "Trusts the harness's own MQTT codec and matcher, the synctest fake clock, the maporder instrumentation (map ranges iterate in simulator order) and the stubs listed in the evidence file; goroutine order inside one step is left to the Go runtime (canonical determinism, see DESIGN 2.1)."),
  "C02": ("E1 simbroker/pipeline", "exploration", "5 C02", "deterministic whole-broker simulation with pre-filled real commit log on tmpfs, seeded publish sequences crossing segment and truncation boundaries, subscribers that acknowledge at once or only after one or more retransmission deadlines, at-least-once oracle over acknowledged publishes",
          "Every publish the publisher saw acknowledged must reach every subscriber that stayed connected with a matching filter, byte-identical; logs start empty or pre-filled around the batch/segment/truncation boundaries and bursts of up to 2600 publishes cross them inside the run.",
-         "Fault-free network; real vx-labs/commitlog files under the simulated broker; same trusted base as C01."),
+         "Fault-free network; 1-2 nodes, judged subscribers on the acknowledging log's node, subscribers of the other node present as neighbours in every match list; real vx-labs/commitlog files under the simulated broker; same trusted base as C01."),
  "C04": ("E2 ackq + E3 lockstep (-race)", "exploration", "5 C04", "sequential simulation of the real ack.Queue and both expiration.List implementations under synthetic time against a map model, plus PRNG-scheduled concurrent tasks under the race detector (lockstep engine)",
          "Register/acknowledge/sweep histories with equal, same-second, past and future deadlines and non-monotone sweep times; exactly-once callbacks, isolation between entries and the one-second expiry band are checked after every operation and by a final far-future sweep.",
          "Deadlines and sweep instants are parameters of the real API, so no clock stub is involved; 'honoured to the second' is read as a +-1 s band."),
- "C06": ("E2 idpool + E1 simbroker/ids + E3 lockstep (-race)", "exploration", "5 C06", "sequential simulation of the real allocator against a set model with a final drain; whole-broker simulation in which the identifiers of all exchanges open at the same time on one node must be pairwise distinct (late PUBREC/PUBCOMP, retries); plus PRNG-scheduled concurrent tasks under the race detector with a porcupine set model (lockstep engine)",
+ "C06": ("E2 idpool + E1 simbroker/ids + E3 lockstep (-race)", "exploration", "5 C06", "sequential simulation of the real allocator against a set model with a final drain; whole-broker simulation in which the identifiers of all exchanges open at the same time on one node must be pairwise distinct (late PUBREC/PUBCOMP, retries; in 40 % of the cases the harness holds all but 1-4 identifiers of the writer's pool so that exhaustion is reached); plus PRNG-scheduled concurrent tasks under the race detector with a porcupine set model (lockstep engine)",
          "Allocate/release histories (including releases of free, unknown, out-of-range ids and release-first) on small ranges and on 0..65535; a final drain must hand out exactly the free identifiers once each.",
          "Values outside [min,max] returned by Get are taken as the exhaustion report."),
  "C08": ("E2 repl/converge + E3 lockstep (-race)", "exploration", "5 C08", "sequential multi-replica simulation of the real distributed.State with per-node offset clocks; seeded permutation/duplication/batching of captured broadcasts; reference LWW fold as oracle; plus concurrent delivery of competing updates by PRNG-scheduled tasks under the race detector (lockstep engine)",
@@ -25,7 +25,7 @@ claimed = {
  "C10": ("E2 repl/pushpull", "exploration", "5 C10", "sequential two-replica simulation with lossy gossip followed by real LocalState/MergeRemoteState exchange; per-replica LWW reference model",
          "Interleaved histories on A and B with each gossip batch delivered or lost, then snapshot A->B, B->A, fresh-B or both; the merged replica must equal the LWW merge of the two reference models (additions and removals), and both directions must yield identical listings.",
          "Clocks synchronised (skew is C08's subject)."),
- "C11": ("E1 simbroker/lifecycle + displace", "exploration", "5 C11", "deterministic whole-broker simulation with fake time: session scripts with idle periods relative to the keep-alive and one termination cause (DISCONNECT, cut, close, link dying under a broker write, silence, protocol error, node stop; second variant: displacement by a newer session with the same client id), gossip faults, settle, then traffic towards every session",
+ "C11": ("E1 simbroker/lifecycle + displace", "exploration", "5 C11", "deterministic whole-broker simulation with fake time: session scripts with idle periods relative to the keep-alive and one termination cause (DISCONNECT, cut, close, link dying under a broker write, silence, protocol error, node stop; second variant: displacement by a newer session with the same client id), gossip faults, settle (listings judged before and after the anti-entropy exchange), then traffic towards every session",
          "No spurious end while the client stays within 0.9x keep-alive; on end the broker closes the connection within a cause-specific bound, no node lists the session or its subscriptions after the settle, nothing more is written to it, and at quiescence every listed subscription belongs to a listed, locally registered session.",
          "The allowance is taken as 2x keep-alive (+5 s bound); keep-alive 0 not generated; one open known finding (gossip delivered after the leave notification)."),
  "C19": ("E2 tries + E3 lockstep (-race)", "exploration", "5 C19", "sequential simulation of topics.Store and subscriptions.Tree against a Go map keyed by full topic strings, with dump/load rebuild as the restart-like event, plus PRNG-scheduled concurrent tasks under the race detector with a porcupine map model (lockstep engine)",
@@ -54,6 +54,7 @@ m = {
  "engines": [
   {"name": "E1 simbroker", "path": "/verif/h (world_test.go, simconn_test.go, mqttc_test.go, e1_*_test.go)", "serves_properties": ["C01","C02","C03","C05","C07","C11","C12","C13","C14","C16","C17","C18"], "kind_free_text": "whole wasp broker(s) in one testing/synctest bubble: fake clock, simulated client connections, gossip, RPC, fault injection, seeded scenarios, ddmin, JSON replay"},
   {"name": "E2 simcomp", "path": "/verif/h (repl_test.go, comp_test.go, logcrash_test.go)", "serves_properties": ["C04","C06","C08","C09","C10","C15","C19"], "kind_free_text": "sequential component simulations of real wasp objects against small reference models"},
+  {"name": "E1c simbroker under controlled goroutine scheduling", "path": "/verif/h/world_test.go (ctl*, quiesce), /verif/instr", "serves_properties": ["C07","C20"], "kind_free_text": "the E1 world on the statement-instrumented build: every broker goroutine parks at each statement (a durable block for synctest), the driver releases one at a time from its PRNG with a run budget; same-turn client requests; deterministic and replayable. C20/e1 instead uses seeded runtime.Gosched preemption under the race detector (statistical, replay by retry)"},
   {"name": "E3 lockstep", "path": "/verif/h (lockstep_*_test.go), /verif/instr", "serves_properties": ["C20","C03","C04","C06","C08","C09","C19"], "kind_free_text": "PRNG-scheduled tasks released one at a time at instrumented yield points, race detector as oracle"},
  ],
  "checks": [], "not_applicable": [],
